@@ -16,6 +16,9 @@ if [ -x "$OUT" ]; then echo "$OUT"; exit 0; fi
 mkdir -p "$VERIF/.cache/$H"
 # keep the cache small: drop entries other than the current hash that are older than a day
 find "$VERIF/.cache" -mindepth 1 -maxdepth 1 -type d ! -name "$H" -mmin +90 -exec rm -rf {} + 2>/dev/null
+# ... and the Go build cache (every changed tree leaves a full set of objects behind: it reached 90 GB during the
+# mutation waves); entries in use have their time stamp refreshed by the go command
+GC=$(go env GOCACHE 2>/dev/null); [ -n "$GC" ] && [ -d "$GC" ] && find "$GC" -type f -mmin +360 -delete 2>/dev/null
 SCRATCH=$(mktemp -d /var/tmp/vsim.XXXXXX) || exit 2
 trap 'rm -rf "$SCRATCH"' EXIT
 G="$SCRATCH/galaxy"
